@@ -39,6 +39,8 @@ func (T3) I2() {}
 var typeByName = map[string]reflect.Type{
 	"T1": reflect.TypeOf(T1{}), "T2": reflect.TypeOf(T2{}), "T3": reflect.TypeOf(T3{}),
 	"T4": reflect.TypeOf(T4{}), "T5": reflect.TypeOf(T5{}), "T6": reflect.TypeOf(T6{}), "T7": reflect.TypeOf(t7{}),
+	// P1 is the pointer type *T1: an unnamed type (Name() is empty) that implements I1 through T1's method
+	"P1": reflect.TypeOf(&T1{}),
 	"I1": reflect.TypeOf((*I1)(nil)).Elem(), "I2": reflect.TypeOf((*I2)(nil)).Elem(),
 	"I12": reflect.TypeOf((*I12)(nil)).Elem(),
 	// U1 is an unnamed struct type: every Tk is assignable to it (and back) without being
@@ -80,6 +82,9 @@ var ifaceImplAlt = map[string]string{"I1": "T2", "I2": "T2", "E": "PE", "I12": "
 func MkValueAs(cname string, id int) interface{} {
 	if cname == "PE" {
 		return &EV{ID: id}
+	}
+	if cname == "P1" {
+		return &T1{ID: id}
 	}
 	v := reflect.New(TypeOf(cname)).Elem()
 	v.Field(0).SetInt(int64(id))
@@ -125,6 +130,8 @@ func MkValue(tname string, id int) reflect.Value {
 	var v reflect.Value
 	if cn == "PE" {
 		v = reflect.ValueOf(&EV{ID: id})
+	} else if cn == "P1" {
+		v = reflect.ValueOf(&T1{ID: id})
 	} else {
 		v = reflect.New(TypeOf(cn)).Elem()
 		v.Field(0).SetInt(int64(id))
